@@ -108,7 +108,8 @@ def generate(rng, tier, idx):
     if not any(n >= 8 for n in ns):
         ns[rng.randrange(k)] = rng.choice([8, 50])
     if rng.random() < 0.25:
-        ns.append(20000 if thorough and rng.random() < 0.3 else 2000)
+        ns.append((20000 if thorough and rng.random() < 0.3 else 2000)
+                  + [0, 1, 337, 999, 500][idx % 5])        # not only round batch sizes
     for n in ns:
         if rng.random() < 0.5:
             ops.append({'op': rng.choice(['app_draw', 'app_reseed']), 'k': rng.randint(1, 50),
